@@ -131,7 +131,8 @@ func geneFeeders(p *Prog, v ssa.Value) ([]geneCall, []ssa.Value) {
 	ctor := p.Func(PkgG, "NewGeneWithTrait")
 	var out []geneCall
 	var other []ssa.Value
-	for _, f := range phiWeb(v).Feeders {
+	// c05Web: the value may be carried by a field of a by-value struct local (robust_c05.go)
+	for _, f := range c05Web(v).Feeders {
 		if c, ok := f.(*ssa.Call); ok && c.Call.StaticCallee() == ctor {
 			out = append(out, geneCall{c, c.Call.Args})
 		} else {
@@ -257,7 +258,7 @@ func C05(p *Prog, r *Run) {
 		r.Check(instrBefore(S, gi[0]), "add-node.disable-before-insert", p.Pos(S.Pos()), "the split gene is disabled on the success path", "the success path does not pass the store that disables the split gene")
 		// gene arguments
 		hidden := p.Const(PkgN, "HiddenNeuron").Val().ExactString()
-		nodes, otherN := phiWeb(ni[0].Common().Args[1]).Feeders, 0
+		nodes, otherN := c05Web(ni[0].Common().Args[1]).Feeders, 0
 		for _, n := range nodes {
 			c, ok := n.(*ssa.Call)
 			if !ok || c.Call.StaticCallee() != p.Func(PkgN, "NewNNode") {
@@ -291,6 +292,20 @@ func C05(p *Prog, r *Run) {
 								}
 							}
 						}
+						return false
+					}
+					// a read of a field of a by-value struct local: every value the field can hold is one of the inserted nodes
+					if w := c05Web(v); len(w.Feeders) > 0 && !(len(w.Feeders) == 1 && w.Feeders[0] == v) {
+						for _, f := range w.Feeders {
+							in := false
+							for _, n := range nodes {
+								in = in || n == f
+							}
+							if !in {
+								return false
+							}
+						}
+						return true
 					}
 					return false
 				}
@@ -315,7 +330,7 @@ func C05(p *Prog, r *Run) {
 		for _, a := range g1 {
 			found := false
 			for _, b := range g2 {
-				if a.call.Block() == b.call.Block() && a.args[3] == b.args[2] {
+				if a.call.Block() == b.call.Block() && c05SameCellRead(a.args[3], b.args[2]) {
 					found = true
 				}
 			}
@@ -551,7 +566,8 @@ func (r *Run) checkAddLink(sums *Summaries) {
 			// the flag that is set inside the search loop
 			if len(flagSites(f, true)) > 0 {
 				for _, s := range flagSites(f, true) {
-					if InnermostLoop(loops, s.From) != nil {
+					// (a site `found = true; break` lies in a block that left the natural loop: scanLoopOf counts it in)
+					if scanLoopOf(loops, s.From) != nil {
 						flag = f
 					}
 				}
